@@ -408,5 +408,24 @@ class MangleWireIfc(Component):
       s.out @= s.y.en ^ s.y__en
 
 
+KwS = mk_bitstruct("KwS", {"reg": Bits4, "y": Bits4})
+
+
+class KeywordField(Component):
+  """a bitstruct field named like a Verilog keyword, never accessed by name in a block (built positionally, moved whole)"""
+  def construct(s):
+    s.in_ = InPort(Bits8)
+    s.out = OutPort(Bits8)
+    s.w = Wire(KwS)
+
+    @update
+    def up_kw1():
+      s.w @= KwS(s.in_[0:4], s.in_[4:8])
+
+    @update
+    def up_kw2():
+      s.out @= s.w
+
+
 MANGLE = {"MangleIfc": MangleIfc, "MangleList": MangleList, "MangleChild": MangleChild, "MangleStruct": MangleStruct,
-          "MangleChildList": MangleChildList, "MangleWireIfc": MangleWireIfc}
+          "MangleChildList": MangleChildList, "MangleWireIfc": MangleWireIfc, "KeywordField": KeywordField}
